@@ -43,8 +43,25 @@ Theorem C07_error_is_delivered :
 Proof. exact error_is_delivered. Qed.
 Print Assumptions C07_error_is_delivered.
 
+(* The stored value is written before the send (hence before the close): a caller that finds the
+   channel closed reads a value that is already in place. A store made later — by whoever took
+   the value off the channel, say — is not a step of the model. *)
+Theorem C07_value_stored_before_it_is_sent :
+  forall s v s', rstep s (RSend v) = Some s' -> rstored s = true.
+Proof. exact send_needs_store. Qed.
+Print Assumptions C07_value_stored_before_it_is_sent.
+
+Theorem C07_no_store_after_the_send :
+  forall s s', RReachable s -> rsent s <> None -> rstep s RStore = Some s' -> False.
+Proof. exact no_store_after_send. Qed.
+Print Assumptions C07_no_store_after_the_send.
+
+Example C07_example_late_store_rejected :
+  rrun rinit [RSend 7] = None /\ rrun rinit [RStore; RSend 7; RRecv true 7; RStore] = None.
+Proof. vm_compute. split; reflexivity. Qed.
+
 Example C07_example :
-  match rrun_idx rinit [RSend 42; RRecv true 42; RClose; RRecv false 42; RRecv false 42] 0 with
+  match rrun_idx rinit [RStore; RSend 42; RRecv true 42; RClose; RRecv false 42; RLoad; RRecv false 42; RLoad] 0 with
   | inr s => rsent s = Some 42 /\ rcloses s = 1
   | inl _ => False
   end.
